@@ -395,13 +395,13 @@ def families(tier):
     E123 = (1, 2, 3)
     if tier == "thorough":
         return [
-            dict(name="1dim", struct=[()], Ns=(0, 1, 2, 3, 4), extents=[(e,) for e in (1, 2, 3, 4)], cap=10 ** 9, K=0, plan=("all", 6)),
+            dict(name="1dim", struct=[()], Ns=(0, 1, 2, 3, 4), extents=[(e,) for e in (1, 2, 3, 4)], cap=10 ** 9, K=0, plan=("all", 4)),
             dict(name="2dims", struct=[(), ()], Ns=(0, 1, 2, 3), extents=list(itertools.product((1, 2, 3, 4), repeat=2)), cap=5000, K=600,
-                 plan=("pick", 10, 40)),
+                 plan=("pick", 6, 20)),
             dict(name="2dims-4rows", struct=[(), ()], Ns=(4,), extents=list(itertools.product((2, 3), repeat=2)), cap=7000, K=0,
                  plan=("pick", 4, 12)),
             dict(name="3dims", struct=[(), (), ()], Ns=(1, 2, 3), extents=list(itertools.product(E123, repeat=3)), cap=800, K=400,
-                 plan=("pick", 4, 16)),
+                 plan=("pick", 3, 10)),
             dict(name="4dims", struct=[(), (), (), ()], Ns=(2, 3), extents=list(itertools.product((1, 2), repeat=4)), cap=300, K=120,
                  plan=("pick", 2, 8)),
             dict(name="2axis", struct=[(2,)], Ns=(1, 2, 3), extents=[(e,) for e in E123], cap=800, K=400, plan=("pick", 10, 30)),
@@ -440,6 +440,11 @@ def is_sampled(tier):
         if fam["plan"][0] != "all":
             return True
     return False
+
+
+def exhaustive_families(tier):
+    return [fam["name"] for fam in families(tier)
+            if all(total_datasets(fam["struct"], N, E) <= fam["cap"] for N in fam["Ns"] for E in fam["extents"])]
 
 
 def jobs(tier, seed):
